@@ -44,7 +44,7 @@ def generate(rng, tier, idx):
                 # the pool is rebuilt on restart; create fresh objects to keep adding
                 base = 1000 * (1 + len([o for o in ops if o["op"] == "restart"]))
                 for i, img in enumerate(imgs):
-                    ops.append({"op": "img_new", "iid": base + i, "attrs": img})
+                    ops.append({"op": "img_new", "iid": base + i, "attrs": dict(img, path="%s.g%d" % (img["path"], base))})
                 imgs_base = base
         else:
             ops.append({"op": "dumps"})
